@@ -114,6 +114,8 @@ struct Tr {
     recvs_since_burst: u32,
     /// cumulative fault weight at this worker's last progress event (its retry budget is per window)
     fw_mark: u32,
+    /// a send syscall of this worker failed (it may legitimately give up at once)
+    send_failed: bool,
 }
 
 pub struct XferMon {
@@ -262,6 +264,7 @@ impl XferMon {
                 call_t: 0,
                 recvs_since_burst: 0,
                 fw_mark: self.fault_weight,
+                send_failed: false,
             },
         );
         true
@@ -364,6 +367,9 @@ impl XferMon {
                                         ),
                                     ));
                                 }
+                            }
+                            if rules.c08 && viol.is_none() && !t.no_verdict_c08 && i <= t.acked {
+                                viol = Some(("retransmits_acknowledged_block".into(), format!("block {i} sent again although ACK({}) was received: after ACK(k) transmission resumes at k+1", t.acked)));
                             }
                             if rules.c08 && viol.is_none() && i > t.acked + w {
                                 viol = Some(("window_overrun".into(), format!("block {i} emitted while last acknowledged is {} and windowsize is {w}", t.acked)));
@@ -652,6 +658,7 @@ impl XferMon {
             }
         }
         let rules = self.rules;
+        let n_final_here = self.n_final(&self.tr[&task]);
         let kind = self.specs[self.tr[&task].spec].kind;
         let spec = self.specs[self.tr[&task].spec].clone();
         // the retry budget is per window: only faults injected since the worker's last progress count
@@ -667,6 +674,12 @@ impl XferMon {
                 viol = Some((
                     "dup_ack_aborts".into(),
                     format!("task{task} {} right after a duplicate/stale ACK (windowsize {})", if let Some(p) = panic { format!("panicked ({p})") } else { "ended".to_string() }, t.neg.w),
+                ));
+            }
+            if (rules.c01 || rules.c07) && viol.is_none() && kind == Kind::Download && panic.is_none() && t.sent_any && t.last_recv == LastRecv::ValidAck && t.acked == t.highest_sent && t.highest_sent < n_final_here && !t.error_seen && !t.send_failed {
+                viol = Some((
+                    "missing_final_block".into(),
+                    format!("task{task} ended as if done after ACK({}) although the final block {} (the first one shorter than blksize) was never sent", t.acked, n_final_here),
                 ));
             }
             let ended_ok = match kind {
@@ -795,6 +808,11 @@ impl Monitor for XferMon {
                             self.error_at_server.insert(*src, true);
                         }
                     }
+                }
+            }
+            Ev::SendErr { actor: Actor::Task(t), .. } => {
+                if let Some(tr) = self.tr.get_mut(t) {
+                    tr.send_failed = true;
                 }
             }
             Ev::Stall { .. } => self.fault_weight += 4 + self.specs.iter().map(|s| s.timeout_ratio).max().unwrap_or(1).max(1),
